@@ -1,2 +1,3 @@
 import Properties.C17
 import Properties.C13
+import Properties.C20
